@@ -16,8 +16,9 @@ the oracle the driver evaluates on what the real code did.
   4. after a `tick` with every awaitable created so far completed, `syncing` and `async_refs`
      are empty.
 
-Also here: the *hazard* predicates naming the situations in which the code as written in /repo
-goes wrong (hypotheses of the `_partial` theorems, classifier of the known findings).
+Also here: the *hazard* predicates naming the situations in which the code as it was before
+commits 08165dc / 0c5ea5c (`Cfg.preFix`) went wrong; they are vacuous for the code in /repo
+(`hazard_repo`) and are the hypotheses of the regression theorems about the pre-fix configuration.
 -/
 import ParamVerif.Async.Model
 
